@@ -1,4 +1,5 @@
 """C15 - pumping power and modelled pressures stay physical."""
+import contextlib
 import json
 import math
 import re
@@ -71,6 +72,26 @@ def _shard(n, lo=5):
     return max(lo, -(-n // 16))
 
 
+def _flat_jobs(ctx, jobs):
+    """jobs: (part, requires, run_expr, tol, cases, kind, key_of, what) - flatcorr.run for several models side by side
+    (kernel evaluation concurrently, counting and filing in the order given, so the outcome is deterministic)"""
+    from concurrent.futures import ThreadPoolExecutor
+    ev = lambda j: fw.kernel_cases(ctx, j[0], j[1], j[2], j[3], [(c['flat'], flatcorr.res_of(c['impl'])) for c in j[4]],
+                                   max(3, -(-len(j[4]) // 8)))
+    with ThreadPoolExecutor(max_workers=3) as ex:
+        fails = list(ex.map(ev, jobs))
+    for (part, _, run, _, cases, kind, key_of, what), failing in zip(jobs, fails):
+        ctx.count(part, evaluations=len(cases), nontrivial_keys=[c['nontrivial'] for c in cases if c.get('nontrivial') is not None])
+        for c in cases[:2]:
+            ctx.sample(part, c['desc'])
+        for i in failing[:5]:
+            c = cases[i]
+            ctx.violate(kind, key_of(c), f'{what} on {c["desc"]}', inp={'part': part, 'desc': c['desc'], 'flat': [str(x) for x in c['flat']]},
+                        observed=flatcorr._show(c['impl']), expected=f'value of Coq model {run} (see replay)')
+        if len(failing) > 5:
+            ctx.note(f'{part}: {len(failing)} disagreeing cases, first 5 reported')
+
+
 def _W():
     import geophires_x.Model  # noqa: F401  (circular import: Model first)
     from geophires_x import WellBores
@@ -82,6 +103,72 @@ def _steps(rate, k):
     if rate == 0:
         return None, None
     return int(F(100) / rate * k), int((100.0 / float(rate)) * k)
+
+
+class _RecFloat(float):
+    """a float that records what ** returns (Trock ** (-0.552) inside get_hydrostatic_pressure_kPa)"""
+    rec = None
+
+    def __pow__(self, e):
+        r = float.__pow__(self, e)
+        self.rec.append(r)
+        return r
+
+
+@contextlib.contextmanager
+def _recording(W):
+    """run real WellBores functions while recording the intermediates they hand to library calls: math.exp (argument, value),
+    CoolProp density, np.average (the Reynolds series) and whether np.log10 (the Colebrook branch) was used"""
+    rec = {'exp': [], 'rho': [], 'pow': [], 'average': [], 'log10': 0}
+    real = (W.math, W.np, W.density_water_kg_per_m3)
+
+    class Proxy:
+        def __init__(self, mod, **over):
+            self._mod, self._over = mod, over
+
+        def __getattr__(self, a):
+            return self._over.get(a) or getattr(self._mod, a)
+
+    def exp(x):
+        r = real[0].exp(x)
+        rec['exp'].append((x, r))
+        return r
+
+    def average(x, *a, **k):
+        rec['average'].append([float(v) for v in x])
+        return real[1].average(x, *a, **k)
+
+    def log10(x):
+        rec['log10'] += 1
+        return real[1].log10(x)
+
+    def rho(*a, **k):
+        r = real[2](*a, **k)
+        rec['rho'].append(r)
+        return r
+
+    W.math, W.np, W.density_water_kg_per_m3 = Proxy(real[0], exp=exp), Proxy(real[1], average=average, log10=log10), rho
+    try:
+        yield rec
+    finally:
+        W.math, W.np, W.density_water_kg_per_m3 = real
+
+
+def hydro_case(W, Trock, Tsurf, depth_m, grad, desc):
+    """the real get_hydrostatic_pressure_kPa on these inputs -> (pressure, flat case for Hydrostatic.run_hydro)"""
+    from geophires_x.GeoPHIRESUtils import quantity, static_pressure_MPa
+    t = _RecFloat(Trock)
+    with _recording(W) as rec:
+        t.rec = rec['pow']
+        p = W.get_hydrostatic_pressure_kPa(t, Tsurf, depth_m, grad, quantity(static_pressure_MPa(1000.0, depth_m), 'MPa'))
+    (x, e), = rec['exp']
+    return p, {'flat': [_f(rec['rho'][-1]), _f(rec['pow'][-1]), _f(grad), _f(depth_m), _f(e)], 'impl': ('V', [_f(x), _f(p)]),
+               'desc': desc, 'nontrivial': None}
+
+
+def static_case(rho, depth_m, desc):
+    from geophires_x.GeoPHIRESUtils import static_pressure_MPa
+    return {'flat': [_f(rho), _f(depth_m)], 'impl': ('V', [_f(static_pressure_MPa(rho, depth_m))]), 'desc': desc, 'nontrivial': None}
 
 
 # ------------------------------------------------------------------------------------------------
@@ -151,11 +238,13 @@ def check_pred(ctx, cs, equality=True):
     """equality with the proved closed form (exact calls: tol 0) + the property clauses evaluated on the implementation's lists"""
     what = 'pressure series differs from the closed form proved of the Coq model (C15_prod_pressure_closed_form / C15_inj_pressure)'
     key = lambda c: '%s-pressure:series:%s' % (c['desc']['fn'], 'exact' if c['desc']['exact'] else 'float')
+    jobs = []
     for fn, run, quirk in (('prod', 'run_prod_pressure', False), ('prod', 'run_prod_pressure_steps', True), ('inj', 'run_inj_pressure', False)):
         for exact in (True, False) if equality else ():
             sel = [c for c in cs if c['desc']['fn'] == fn and c['desc']['exact'] == exact and c['quirk'] == quirk]
-            flatcorr.run(ctx, f'{fn}-predictor-{"exact" if exact else "float"}' + ('-float-step-count' if quirk else ''),
-                         ['Model.Pressure'], run, F(0) if exact else TOL, sel, kind='property', key_of=key, what=what, shard=_shard(len(sel)))
+            jobs.append((f'{fn}-predictor-{"exact" if exact else "float"}' + ('-float-step-count' if quirk else ''),
+                         ['Model.Pressure'], run, F(0) if exact else TOL, sel, 'property', key, what))
+    _flat_jobs(ctx, jobs)
     ctx.count('predictor-domain', float_trunc_quirk=sum(c['quirk'] for c in cs), errors=sum(c['impl'][0] == 'E' for c in cs))
     terms, owners = [], []
     for c in cs:
@@ -266,7 +355,7 @@ def _series(x, n):
 def check_runs(ctx, cfgs, results):
     W = _W()
     from geophires_x.GeoPHIRESUtils import quantity, static_pressure_MPa
-    flat = {k: [] for k in ('run_index', 'run_impedance', 'run_prod_pressure', 'run_prod_pressure_steps', 'run_inj_stage')}
+    flat = {k: [] for k in ('run_index', 'run_impedance', 'run_prod_pressure', 'run_prod_pressure_steps', 'run_inj_stage', 'run_hydro', 'run_static')}
     terms, owners, nsnap = [], [], 0
     for cfg, r in zip(cfgs, results):
         inp = {'desc': {'part': 'run', 'tag': cfg['tag'], 'text': cfg['text']}}
@@ -331,15 +420,15 @@ def check_runs(ctx, cfgs, results):
         prs, irs = _f(wb('production_reservoir_pressure')), _f(wb('injection_reservoir_pressure'))
         opp = S.p('wellbores', 'overpressure_percentage')
         op, rate = _f(opp['value']), _f(wb('overpressure_depletion_rate'))
-        if op == 100:
-            p0 = prs[0]
-        elif not wb('usebuiltinhydrostaticpressurecorrelation'):
-            p0 = _f(wb('Phydrostatic'))
-        else:   # the CoolProp-based correlation, evaluated by the library on the snapshot's inputs (data for the model)
-            d = S.p('reserv', 'depth')
-            depth_m = d['value'] * 1000 if str(d['cur']).startswith('k') else d['value']
-            p0 = _f(W.get_hydrostatic_pressure_kPa(S.v('reserv', 'Trock'), S.v('reserv', 'Tsurf'), depth_m, S.v('reserv', 'averagegradient'),
-                                                   quantity(static_pressure_MPa(1000.0, depth_m), 'MPa')))
+        d = S.p('reserv', 'depth')
+        depth_m = d['value'] * 1000 if str(d['cur']).startswith('k') else d['value']
+        flat['run_static'] += [static_case(1000.0, depth_m, inp['desc']), static_case(S.v('reserv', 'rhorock'), depth_m, inp['desc'])]
+        if not wb('usebuiltinhydrostaticpressurecorrelation'):
+            p0 = _f(wb('Phydrostatic')) if op != 100 else prs[0]
+        else:   # the built-in correlation: the real function on the snapshot's inputs, its rational part re-evaluated by the model
+            p0, hc = hydro_case(W, S.v('reserv', 'Trock'), S.v('reserv', 'Tsurf'), depth_m, S.v('reserv', 'averagegradient'), inp['desc'])
+            p0 = _f(p0)
+            flat['run_hydro'].append(hc)
         ex, fl = _steps(rate, k) if op != 100 else (1, 1)
         sig['op'] = 'none' if not opp['provided'] else '100' if op == 100 else 'floor' if ex < n else 'declining'
         if ex == fl:
@@ -365,13 +454,17 @@ def check_runs(ctx, cfgs, results):
     what = {'run_index': 'index-model pumping power (clamped production, injection, total)',
             'run_impedance': 'impedance-model overall pressure drop and clamped pumping power',
             'run_prod_pressure': 'production-reservoir pressure series of the run',
-            'run_prod_pressure_steps': 'production-reservoir pressure series of the run (float-evaluated step count)', 'run_inj_stage': 'injection-reservoir pressure series of the run'}
+            'run_prod_pressure_steps': 'production-reservoir pressure series of the run (float-evaluated step count)',
+            'run_hydro': 'built-in hydrostatic correlation (exponent and pressure) on the run\'s inputs',
+            'run_static': 'static pressure rho*g*depth on the run\'s depth', 'run_inj_stage': 'injection-reservoir pressure series of the run'}
+    jobs = []
     for run, cs in flat.items():
-        req = ['Model.Pressure'] if 'pressure' in run or 'stage' in run else ['Model.Pumping']
+        req = ['Model.Hydrostatic'] if run in ('run_hydro', 'run_static') else ['Model.Pressure'] if 'pressure' in run or 'stage' in run else ['Model.Pumping']
         prop = req == ['Model.Pressure']
-        flatcorr.run(ctx, 'snapshot-' + run, req, run, TOL, cs, kind='property' if prop else 'corr', shard=_shard(len(cs), 3),
-                     key_of=lambda c, run=run: f'whole-run:{run}:{c["desc"]["tag"]}',
-                     what=what[run] + (' differs from the proved closed form' if prop else ' differs from the Coq model'))
+        jobs.append(('snapshot-' + run, req, run, TOL, cs, 'property' if prop else 'corr',
+                     lambda c, run=run: f'whole-run:{run}:{c["desc"]["tag"]}',
+                     what[run] + (' differs from the proved closed form' if prop else ' differs from the Coq model')))
+    _flat_jobs(ctx, jobs)
     bad = fw.kernel_bools(ctx, 'run_checkers', ['Model.Pressure', 'Model.Pumping'], terms, shard=_shard(len(terms)))
     ctx.count('whole-run-property-checkers', evaluations=len(terms))
     for i in bad[:6]:
@@ -412,31 +505,30 @@ def sweep_cases(s):
     model = types.SimpleNamespace(reserv=types.SimpleNamespace(hydrostatic_pressure=lambda: P),
                                   wellbores=types.SimpleNamespace(ProducedTemperature=types.SimpleNamespace(value=[0.0] * 3)))
     mu = [viscosity_water_Pa_sec(t, pressure=P) for t in T]
-    qeff = s['q'] if s['well'] == 'prod' else s['nprod'] / s['ninj'] * s['q'] * (1.0 + s['wl'])
     out = []
     for d in s['diam']:
-        if s['well'] == 'prod':
-            dp, f, v, rho = W.WellPressureDrop(model, np.array(T), s['q'], d, True, s['depth'])
-            head = [F(3), _f(s['q'])]
-        else:
-            dp, f, v, rho = W.InjectionWellPressureDrop(model, s['T'], s['q'], d, True, s['depth'], s['nprod'], s['ninj'], s['wl'])
-            head = [F(3), F(s['nprod']), F(s['ninj']), _f(s['q']), _f(s['wl'])]
-        re = [4.0 * qeff / (m * math.pi * d) for m in mu]
-        lam = all(abs(x * y / 64.0 - 1) < 1e-9 for x, y in zip(f.tolist(), re))   # which branch the code took
+        with _recording(W) as rec:   # the code's own Reynolds series (argument of np.average) and branch (log10 used or not)
+            if s['well'] == 'prod':
+                dp, f, v, rho = W.WellPressureDrop(model, np.array(T), s['q'], d, True, s['depth'])
+                head = [F(3), _f(s['q'])]
+            else:
+                dp, f, v, rho = W.InjectionWellPressureDrop(model, s['T'], s['q'], d, True, s['depth'], s['nprod'], s['ninj'], s['wl'])
+                head = [F(3), F(s['nprod']), F(s['ninj']), _f(s['q']), _f(s['wl'])]
+        re, lam = rec['average'][-1], rec['log10'] == 0
         ambiguous = abs(sum(re) / 3 / 2300.0 - 1) < 1e-6
         out.append({'flat': head + [_f(math.pi), _f(s['depth']), _f(d)] + _f(rho.tolist()) + _f(mu) + _f(f.tolist()),
-                    'impl': ('V', [F(lam)] + _f(v.tolist()) + _f(f.tolist()) + _f(dp.tolist())), 'desc': s, 'lam': lam,
+                    'impl': ('V', [F(lam)] + _f(v.tolist()) + _f(re) + _f(f.tolist()) + _f(dp.tolist())), 'desc': s, 'lam': lam,
                     'ambiguous': ambiguous, 'd': _f(d), 'f': _f(f.tolist()), 'dp': _f(dp.tolist()), 'nontrivial': None})
     return out
 
 
 def check_friction(ctx, specs):
     groups = [sweep_cases(s) for s in specs]
-    for well, run in (('prod', 'run_friction'), ('inj', 'run_friction_inj')):
-        cs = [c for g in groups for c in g if c['desc']['well'] == well and not c['ambiguous']]
-        flatcorr.run(ctx, 'friction-' + well, ['Model.Friction'], run, TOL, cs, kind='corr', shard=_shard(len(cs)),
-                     key_of=lambda c: 'friction:formula:' + c['desc']['well'],
-                     what='velocity / friction factor / Darcy-Weisbach pressure loss differ from the Coq model')
+    _flat_jobs(ctx, [('friction-' + well, ['Model.Friction'], run, TOL,
+                      [c for g in groups for c in g if c['desc']['well'] == well and not c['ambiguous']], 'corr',
+                      lambda c: 'friction:formula:' + c['desc']['well'],
+                      'regime / velocity / Reynolds number / friction factor / Darcy-Weisbach pressure loss differ from the Coq model')
+                     for well, run in (('prod', 'run_friction'), ('inj', 'run_friction_inj'))])
     terms, owners = [], []
     for g in groups:
         for a, b in zip(g, g[1:]):
@@ -528,14 +620,14 @@ def pump_cases(s):
 def check_pump(ctx, specs):
     groups = [pump_cases(s) for s in specs]
     mk = lambda fl, out, s: {'flat': fl, 'impl': ('V', out), 'desc': s, 'nontrivial': None}
-    for run in ('run_prod_index', 'run_inj_index'):
-        cs = [mk(*r['flat'][run], r['desc']) for g in groups for r in g]
-        flatcorr.run(ctx, 'pump-' + run, ['Model.WellDP'], run, TOL, cs, kind='corr', shard=_shard(len(cs)),
-                     key_of=lambda c, run=run: f'pump:composition:{run}',
-                     what='pump pressure / power of the index model is not (other terms) + friction as in the Coq model')
-    cs = [mk(fl, out, r['desc']) for g in groups for r in g for fl, out in r['imp']]
-    flatcorr.run(ctx, 'pump-run_imp_step', ['Model.WellDP'], 'run_imp_step', TOL, cs, kind='corr', shard=_shard(len(cs)),
-                 key_of=lambda c: 'pump:composition:impedance', what='impedance-model pressure drops / power differ from the Coq model')
+    jobs = [('pump-' + run, ['Model.WellDP'], run, TOL, [mk(*r['flat'][run], r['desc']) for g in groups for r in g], 'corr',
+             lambda c, run=run: f'pump:composition:{run}',
+             'pump pressure / power of the index model is not (other terms) + friction as in the Coq model')
+            for run in ('run_prod_index', 'run_inj_index')]
+    jobs.append(('pump-run_imp_step', ['Model.WellDP'], 'run_imp_step', TOL,
+                 [mk(fl, out, r['desc']) for g in groups for r in g for fl, out in r['imp']], 'corr',
+                 lambda c: 'pump:composition:impedance', 'impedance-model pressure drops / power differ from the Coq model'))
+    _flat_jobs(ctx, jobs)
     sub = lambda a, b: [x - y for x, y in zip(a, b)]
     terms, owners = [], []
     for g in groups:
@@ -608,6 +700,46 @@ def check_pairs(ctx, pairs, results):
 
 
 # ------------------------------------------------------------------------------------------------
+# (e) static pressure and the built-in hydrostatic correlation, called directly
+# ------------------------------------------------------------------------------------------------
+def hydro_spec(ctx):
+    rnd = ctx.rng
+    dec = lambda lo, hi, d=2: configs.dec(rnd, lo, hi, d)
+    per_km = rnd.random() < 0.25     # the gradient argument in degC/km (as one call site passes it): vertex within metres
+    return {'part': 'hydro', 'Trock': dec(40, 400, 1), 'Tsurf': dec(0, 30, 1), 'grad': dec(20, 90, 1) if per_km else dec(0.02, 0.09, 4),
+            'rhorock': dec(2000, 3300, 0), 'depths': sorted(dec(2, 60, 1) if per_km else dec(300, 7000, 0) for _ in range(4))}
+
+
+def check_hydro(ctx, specs):
+    W, cs, st, terms, owners = _W(), [], [], [], []
+    for s in specs:
+        row = []
+        for d in s['depths']:
+            p, c = hydro_case(W, s['Trock'], s['Tsurf'], d, s['grad'], dict(s, depths=[d]))
+            cs.append(c)
+            st += [static_case(1000.0, d, s), static_case(s['rhorock'], d, s)]
+            ctg = F(9, 10000) / (F(30796, 1000) * c['flat'][1]) * _f(s['grad'])
+            row.append((_f(d), _f(p), ctg))
+        for (d1, p1, ctg), (d2, p2, _) in zip(row, row[1:]):
+            if d1 < d2 and ctg * d2 <= 1:    # hypotheses of C15_hydrostatic_positive / _monotone_partial
+                terms.append(f'Qltb 0 {Q(p1)} && Qleb {Q(p1)} {Q(p2)}')
+                owners.append((s, float(d1), float(d2), float(p1), float(p2)))
+        ctx.count('hydrostatic-domain', beyond_vertex=sum(ctg * d > 1 for d, _, ctg in row), within=sum(ctg * d <= 1 for d, _, ctg in row))
+    _flat_jobs(ctx, [('hydrostatic-correlation', ['Model.Hydrostatic'], 'run_hydro', TOL, cs, 'corr', lambda c: 'hydrostatic:formula',
+                      'exponent / pressure of get_hydrostatic_pressure_kPa differ from the Coq model'),
+                     ('static-pressure', ['Model.Hydrostatic'], 'run_static', TOL, st, 'corr', lambda c: 'static-pressure:formula',
+                      'static_pressure_MPa differs from rho*g*depth of the Coq model')])
+    bad = fw.kernel_bools(ctx, 'hydro_checkers', [], terms, shard=_shard(len(terms)))
+    ctx.count('hydrostatic-property-checkers', evaluations=len(terms))
+    for i in bad[:5]:
+        s, d1, d2, p1, p2 = owners[i]
+        ctx.violate('property', 'hydrostatic:not-positive-or-decreasing-with-depth',
+                    f'built-in hydrostatic pressure is {p1} kPa at {d1} m and {p2} kPa at {d2} m (same temperatures and gradient): {s}',
+                    inp={'desc': dict(s, depths=[d1, d2])}, expected='0 < p(d1) <= p(d2) below the vertex depth 1/(CT*gradient)',
+                    observed=[p1, p2])
+
+
+# ------------------------------------------------------------------------------------------------
 def correspondence(ctx, proofs_ok=True):
     import time
     W, t = _W(), [time.time()]
@@ -619,6 +751,8 @@ def correspondence(ctx, proofs_ok=True):
     lap('friction sweeps')
     check_pump(ctx, json.loads((CORPUS / 'pump_seeds.json').read_text()) + [pump_spec(ctx) for _ in range(ctx.n(12, 300))])
     lap('hydraulic functions vs diameter')
+    check_hydro(ctx, json.loads((CORPUS / 'hydro_seeds.json').read_text()) + [hydro_spec(ctx) for _ in range(ctx.n(25, 600))])
+    lap('hydrostatic correlation')
     cfgs, pairs = run_configs(ctx), pair_configs(ctx)
     results = runner.run_many(ctx, [c['text'] for c in cfgs] + [t for pr in pairs for t in pr['texts']])
     lap('whole runs')
@@ -645,6 +779,7 @@ def search(ctx):
     rnd_specs = [sweep_spec(ctx) for _ in range(200)]
     check_friction(ctx, rnd_specs)
     check_pump(ctx, [pump_spec(ctx) for _ in range(60)])
+    check_hydro(ctx, [hydro_spec(ctx) for _ in range(100)])
     ctx.note(f'search: {len(cs)} predictor calls, {len(rnd_specs)} diameter sweeps, {len(ctx.violations) - n0} new entries')
 
 
@@ -659,6 +794,8 @@ def replay(ctx, data):
         for c in sweep_cases(d):
             print('d =', float(c['d']), 'laminar' if c['lam'] else 'turbulent', 'f =', [float(x) for x in c['f']], 'DP[kPa] =', [float(x) for x in c['dp']])
         check_friction(ctx, [d])
+    elif part == 'hydro':
+        check_hydro(ctx, [d])
     elif part == 'pump':
         for r in pump_cases(d):
             print('d =', float(r['d']), {k: [round(float(x), 4) for x in r[k]] for k in ('dpp', 'dpp0', 'ppp', 'dpi', 'dpi0', 'ppi', 'dpo', 'ppimp')})
